@@ -67,7 +67,10 @@ def main():
     meta['confirmed'] = ok
     caught = any(c['exit'] == 1 for c in meta['check'].values())
     meta['caught'] = caught
-    print(json.dumps(meta, indent=1)[:3000])
+    print(f"{name}: confirmed={ok} caught={caught} unpatched_demo={meta['demo_unpatched_exit']} patched_demo={meta['demo_patched_exit']} "
+          f"suite={meta.get('suite_with_patch', 'skipped')!r}")
+    for t, c in meta['check'].items():
+        print(f"  {t}: exit={c['exit']} " + ' | '.join(x[:260] for x in (c['signatures'][:2] or [l for l in c['verdict_lines'] if not l.startswith('KNOWN')][:2])))
     if ok:
         dst = os.path.join(VERIF, 'seeded', name)
         os.makedirs(dst, exist_ok=True)
